@@ -18,6 +18,7 @@ import copy
 import io
 import itertools
 import json
+import signal
 
 from ..impl import valjson as vj
 
@@ -145,11 +146,11 @@ def g_default(rng, names):
     return lit(g_value(rng))
 
 
-def g_params(rng, n=None, reserved_p=0.02):
+def g_params(rng, n=None, reserved_p=0.02, pool=None):
     n = rng.choice([0, 1, 1, 2, 2, 3, 3, 4, 5]) if n is None else n
     names = rng.sample(PNAMES, n)
     if n and rng.random() < reserved_p:
-        names[rng.randrange(n)] = rng.choice(RESERVED)
+        names[rng.randrange(n)] = rng.choice(pool or RESERVED)
     return [{"name": nm, "default": g_default(rng, names) if rng.random() < 0.5 else None} for nm in names]
 
 
@@ -290,9 +291,11 @@ def g_prog(rng, mode=None):
     started = set()
     # decide call forms for callees called from main
     for i, nm in enumerate(names):
-        params = g_params(rng, reserved_p=0.03 if mode == "reserved" else 0.0)
+        # (`activated` is kept for the fn stream only: `await f(activated=1)` turns the callee into an activated flow
+        #  that restarts forever — run_to_completion does not return; the timeout guard below would catch it at 5 s a case)
+        params = g_params(rng, reserved_p=0.03 if mode == "reserved" else 0.0, pool=RESERVED[:5])
         if mode == "reserved" and params and i == 0:
-            params[0]["name"] = rng.choice(RESERVED)
+            params[0]["name"] = rng.choice(RESERVED[:5])
         flows.append({"name": nm, "params": params, "rets": [], "body": []})
     by_name = {f["name"]: f for f in flows}
     forms = {nm: rng.choice(["await", "await", "await", "start", "activate"]) for nm in names}
@@ -304,6 +307,10 @@ def g_prog(rng, mode=None):
         if use_global and rng.random() < 0.5:
             body.append({"op": "global", "name": "g"})
             scope.append("g")
+        elif use_global and rng.random() < 0.5:
+            # a flow that did NOT declare `global $g` assigns its own local `$g`: the global must stay untouched
+            body.append({"op": "assign", "key": "g", "e": g_arg_expr(rng, scope)})
+            body.append({"op": "send", "name": "LocalG", "args": [["g", {"var": "g"}]]})
         body.append({"op": "send", "name": "Echo" + f["name"].capitalize(), "args": [[p, {"var": p}] for p in pn] + ([["g", {"var": "g"}]] if "g" in scope else [])})
         for lv in LOCALS:
             if rng.random() < 0.6:
@@ -511,6 +518,13 @@ def _enc_safe(v):
         return {"s": "<" + type(v).__name__ + ">"}
 
 
+CASE_TIMEOUT_S = 20
+
+
+class _Timeout(BaseException):
+    """run_to_completion did not return (never a verdict by itself: reported through `exc: timeout`)"""
+
+
 def run_prog(src, events):
     sm = _SM
     from nemoguardrails.colang.v2_x.runtime.flows import InternalEvent
@@ -523,6 +537,12 @@ def run_prog(src, events):
         obs["skip"] = "parse:" + type(e).__name__ + ":" + str(e)[:80]
         return obs
     out = []
+
+    def on_alarm(signum, frame):
+        raise _Timeout()
+
+    old_handler = signal.signal(signal.SIGALRM, on_alarm)
+    old_left = signal.alarm(CASE_TIMEOUT_S)
     try:
         with contextlib.redirect_stdout(io.StringIO()), contextlib.redirect_stderr(io.StringIO()):
             sm.run_to_completion(st, InternalEvent(name="StartFlow", arguments={"flow_id": "main"}))
@@ -531,8 +551,15 @@ def run_prog(src, events):
                 st.outgoing_events.clear()
                 sm.run_to_completion(st, copy.deepcopy(e))
                 out += list(st.outgoing_events)
+    except _Timeout:
+        obs["exc"] = "timeout"
     except Exception as e:  # noqa
         obs["exc"] = _exc_name(e)
+    finally:
+        signal.alarm(0)
+        signal.signal(signal.SIGALRM, old_handler)
+        if old_left:
+            signal.alarm(max(1, old_left - 1))
     obs["out"] = [_clean_event(e) for e in out]
     obs["insts"] = [[fs.flow_id, _items(_visible(fs.context))] for fs in st.flow_states.values()]
     obs["globals"] = _items(st.context)
@@ -858,9 +885,9 @@ def tags(case, obs):
 
 def escalate(rng, focus, tier):
     """focused search after a broken obligation/correspondence: a thorough-size slice, cheap enough for the quick budget"""
-    cases = [g_fn(rng) for _ in range(20000)]
+    cases = [g_fn(rng) for _ in range(8000)]
     modes = [None] * 12 + ["clash", "clash", "surplus", "unknown-named", "dup-named"]
-    cases += [g_prog(rng, rng.choice(modes)) for _ in range(1500)]
+    cases += [g_prog(rng, rng.choice(modes)) for _ in range(800)]
     cases += [c for c in (g_probe(rng) for _ in range(300)) if not c["tmpl"].startswith("inplace-")]
     return cases
 
